@@ -29,6 +29,7 @@ import "os"
 import "strconv"
 import "strings"
 import "unsafe"
+import "github.com/pbenner/autodiff/verifhook"
 /* -------------------------------------------------------------------------- */
 type DenseInt8Matrix struct {
   values []int8
@@ -231,6 +232,7 @@ func (matrix *DenseInt8Matrix) Tip() {
     }
     k = cycle
     for {
+      verifhook.Tick("tip.cycle")
       if k != mn-1 {
         k = matrix.rows*k % (mn-1)
       }
